@@ -26,6 +26,7 @@ Supp(sts) == [k |-> "supp", v |-> <<>>, e |-> "-", name |-> "", args |-> <<>>, f
               ks |-> <<>>, xs |-> <<>>, steps |-> [i \in DOMAIN sts |-> [t |-> sts[i][1], p |-> sts[i][2], id |-> 20 + i]],
               fid |-> 50, mode |-> "-", pv |-> "-", id |-> 0]
 Supps == {Supp(sts) : sts \in UNION {[1..n -> {"val", "sup"} \X SLeaf] : n \in 1..3}}
+         \cup {Supp(sts) : sts \in UNION {[1..n -> ({"val", "sup"} \X {Unit(<<1>>), Bad("e1")}) \cup ({"pure", "func"} \X {Unit(<<2>>)})] : n \in 3..4}}
 Rec(arg, c) == [k |-> "rec", v |-> <<>>, e |-> "-", name |-> "", args |-> <<>>, fin |-> [t |-> "none", id |-> 0, c |-> "-"],
                 arg |-> arg, kk |-> [id |-> 30, c |-> c], ks |-> <<>>, xs |-> <<>>, steps |-> <<>>, fid |-> 0, mode |-> "-", pv |-> "-", id |-> 0]
 Recs == {Rec(a, c) : a \in L0, c \in Conts}
